@@ -45,9 +45,9 @@ C17All(u) ==
         : k \in DOMAIN AddrSeq, en \in BOOLEAN, sk \in BOOLEAN, sh \in {1, 2} }
 
 \* C18(a): address multisets (duplicates, empty, mapped) x per-address resolver behaviour (names / empty list / error / slow)
-Behaviours == {"names", "two", "empty", "error", "slow"}
-DnsOf(b, a) == CASE b = "names" -> "n-" \o a [] b = "two" -> "x-" \o a \o ",y-" \o a [] b = "empty" -> "" [] b = "error" -> "!boom" [] OTHER -> "~"
-NamesOf(b, a) == CASE b = "names" -> <<"n-" \o a>> [] b = "two" -> <<"x-" \o a, "y-" \o a>> [] OTHER -> <<>>
+Behaviours == {"names", "two", "empty", "error", "slow", "dot"}
+DnsOf(b, a) == CASE b = "dot" -> "fqdn-" \o a \o ".example." [] b = "names" -> "n-" \o a [] b = "two" -> "x-" \o a \o ",y-" \o a [] b = "empty" -> "" [] b = "error" -> "!boom" [] OTHER -> "~"
+NamesOf(b, a) == CASE b = "dot" -> <<"fqdn-" \o a \o ".example.">> [] b = "names" -> <<"n-" \o a>> [] b = "two" -> <<"x-" \o a, "y-" \o a>> [] OTHER -> <<>>
 E1 == Addr("8.8.8.8", <<8, 8, 8, 8>>)  E2 == Addr("2001:db8::1", <<32, 1, 13, 184>> \o Z(11) \o <<1>>)
 E3 == Addr("8.8.4.4", Z(10) \o <<255, 255, 8, 8, 4, 4>>)  E4 == Addr("8.8.4.4", <<8, 8, 4, 4>>)
 C18All(u) ==
@@ -87,6 +87,7 @@ C08All(u) ==
 \* documents finished concurrently (the HTTP server shares one Traceroute between requests): identifiers stay pairwise distinct
 C16Stress(u) == { [id |-> "C16/concurrent/" \o ToString(g) \o "x" \o ToString(n), label |-> "ids/concurrent/" \o ToString(g), kind |-> "docstress",
                    extra |-> [g |-> g, n |-> n, runs |-> 3]] : g \in {2, 8}, n \in {IF Tier = "quick" THEN 400 ELSE 4000} }
+                \cup { [id |-> "C16/wide/" \o ToString(r), label |-> "ids/many_runs/" \o ToString(r), kind |-> "docstress", extra |-> [g |-> 1, n |-> 2, runs |-> r]] : r \in {257, 600} }
 \* runs of one document with DIFFERENT destination addresses (a name with several addresses, resolved per run): each destination
 \* carries the names of its own address; a failing lookup of one destination leaves only that one empty
 RunTo(d, hops) == [dst |-> d.b, dsts |-> d.s, hops |-> hops]
